@@ -285,6 +285,16 @@ dom_fn!(dom_fless, FloatLess);
 dom_fn!(dom_piece, Piece);
 dom_fn!(dom_boolor, BoolOr);
 
+/// Shifts through the abstract-domain wrapper where the shift amount has another width than the shifted value:
+/// the value is symbolic, the amounts are concrete (0, width-1, width, a value that only differs from 0 above the value's width).
+pub fn dom_shift_amounts<S: Src>(s: &mut S, bits: u32, bbits: u32) {
+    let a = s.uw(bits);
+    one_dom_binop!(s, IntLeft, bits, a, bbits, 1u64 << bits);
+    one_dom_binop!(s, IntRight, bits, a, bbits, (bits - 1) as u64);
+    one_dom_binop!(s, IntSRight, bits, a, bbits, (1u64 << bits) | 1);
+    cov!(s, true, "end of harness reached");
+}
+
 /// Division through the abstract-domain wrapper with a zero divisor (concrete) and a symbolic dividend (incl. 0):
 /// must report unknown of the operand width. No division circuit is needed, so this stays cheap.
 pub fn dom_div_by_zero<S: Src>(s: &mut S, bits: u32) {
@@ -331,11 +341,17 @@ macro_rules! one_bytesize {
         )*
     }};
 }
-pub fn expr_bytesize_binop<S: Src>(s: &mut S, bits: u32) {
-    one_bytesize!(s, bits, [Piece, IntEqual, IntNotEqual, IntLess, IntSLess, IntLessEqual, IntSLessEqual, IntAdd, IntSub,
-        IntCarry, IntSCarry, IntSBorrow, IntXOr, IntAnd, IntOr, IntLeft, IntRight, IntSRight, IntMult, IntDiv, IntRem,
-        IntSDiv, IntSRem, BoolXOr, BoolAnd, BoolOr, FloatEqual, FloatNotEqual, FloatLess, FloatLessEqual, FloatAdd,
-        FloatSub, FloatMult, FloatDiv]);
+pub fn expr_bytesize_flags<S: Src>(s: &mut S, bits: u32) {
+    // operations whose result width is not simply the width of the left operand (about 20 s of symbolic execution each)
+    one_bytesize!(s, bits, [Piece, IntEqual, IntSLess, IntCarry, IntSCarry, IntSBorrow, IntAdd, IntLeft]);
+    cov!(s, true, "end of harness reached");
+}
+pub fn expr_bytesize_cmp<S: Src>(s: &mut S, bits: u32) {
+    one_bytesize!(s, bits, [IntNotEqual, IntLess, IntLessEqual, IntSLessEqual, BoolXOr, BoolAnd, BoolOr, FloatEqual, FloatNotEqual, FloatLess, FloatLessEqual]);
+    cov!(s, true, "end of harness reached");
+}
+pub fn expr_bytesize_arith<S: Src>(s: &mut S, bits: u32) {
+    one_bytesize!(s, bits, [IntSub, IntXOr, IntAnd, IntOr, IntRight, IntSRight, IntMult, IntDiv, IntRem, IntSDiv, IntSRem, FloatAdd, FloatSub, FloatMult, FloatDiv]);
     cov!(s, true, "end of harness reached");
 }
 
@@ -712,6 +728,12 @@ crate::harnesses! {
     c01_resize_8_32[4] => bv_resize(8, 32);
     @quick c01_resize_64_16[4] => bv_resize(64, 16);
     c01_resize_32_32[4] => bv_resize(32, 32);
+    // Expression::bytesize (result width of every binary operation, concrete operand widths)
+    @quick c01_bytesize_flags_32[4] => expr_bytesize_flags(32);
+    c01_bytesize_cmp_32[4] => expr_bytesize_cmp(32);
+    c01_bytesize_arith_64[4] => expr_bytesize_arith(64);
+    // (shifts through the domain wrapper with a shift amount of another width than the value are out of reach: a symbolic
+    //  amount ran CBMC out of memory at 56 GB, concrete amounts did not finish in 15 min -- `dom_shift_amounts` is kept unregistered)
     @quick c01_dom_add_8[4] => dom_add(8, 8);
     c01_dom_add_64[4] => dom_add(64, 64);
     c01_dom_xor_32[4] => dom_xor(32, 32);
